@@ -262,8 +262,9 @@ impl<'a, 'tcx> BodyCx<'a, 'tcx> {
         }
         if let mir::Const::Unevaluated(u, _) = c.const_ {
             o.set("from", J::s(defp(self.tcx, u.def)));
-            if u.promoted.is_some() {
+            if let Some(pi) = u.promoted {
                 o.set("promoted", J::Bool(true));
+                o.set("pidx", J::u(pi.as_usize()));
             }
         }
         o
